@@ -72,7 +72,7 @@ func vhWRowIs(r Row, w vhWRow) bool {
 	return ok1 && ok2 && ok3 && a == w.a && b == w.b && c == w.c
 }
 
-//verif:prop C02,C03,C01
+//verif:prop C02,C03,C01,C20
 //verif:shards 4
 //verif:bounds WITHOUT ROWID table w(a,b,c, PRIMARY KEY(b DESC)) with secondary index on c: 3 rows, all 6x6 order permutations, table and index each as one leaf or interior+2 leaves; values any int64 consistent with the orders; operations Select, PKSelect, IndexedSelect, IndexedSelectEq
 func VH_C02_norowid() {
